@@ -13,6 +13,15 @@ Tie to the code on every run (observation level: public constructors only)
   data shapes       every document rule over frames of 0 / 1 / few / many rows, frames without columns, an empty
                     section anywhere in a multi-section list; systematic product grouping option × string / list form
                     × position of the missing name × data shape × section layout, each with its legal twin
+  near-valid        every string-coded option (format letters, justifications, vertical alignment, border styles,
+                    colour names of every attribute component; pageby_row; orientation, page border styles, title /
+                    footnote / source placement; figure alignment / position; grouping column names): a documented
+                    legal value with one of 18 white-space / control / invisible characters (LF CR CRLF TAB SP NUL VT
+                    FF FS US NEL NBSP LS PS EM-SPACE IDEOGRAPHIC-SPACE ZWSP BOM) after it, before it, doubled after it,
+                    inside it, on both sides, alone, after another such character; another letter case; the value
+                    repeated (with and without a separator); the empty string; a `str` subclass holding a legal / such
+                    a value — at any position of any shape; legality of each drawn string is decided by the Lean
+                    specification (exact membership in the documented sets), never by the generator
   whole calls       components built inline, then `RTFDocument(...)`, then `rtf_encode()`: the stage at which the
                     exception appears is recorded (“up front” = before any document object exists)
   histories         (`c19_hist.py`) sequences of constructor calls in ONE process, every call judged against the
@@ -41,7 +50,11 @@ RULE = ("constructor calls of the 8 attribute components, RTFPage, RTFFigure, RT
         "many rows and frames without columns (single frame or any section of a 1–3 section list), grouping options "
         "as string or list with the missing name first / inner / last / alone; non-trivial = the specification "
         "verdict is not `free` (reject, notFound, rejectAny or accept); distinct by (constructor, fields, shapes, "
-        "position class of the bad value, the bad value, data shape, verdict); histories of 1–14 steps run in one fresh "
+        "position class of the bad value, the bad value, data shape, verdict); near-valid strings for every string-coded "
+        "option (97 constructor × option slots + grouping column names): a legal code word × 18 white-space / control / "
+        "invisible characters × {after, before, doubled after, inside, both sides, alone, after another one}, letter "
+        "case, repetition, empty string, str subclass, at any position of any shape, one call in seven as a component "
+        "built inline for RTFDocument; histories of 1–14 steps run in one fresh "
         "process each: RTFFigure calls with file-system events in between (create / new content / delete / rename to "
         "another name, suffix, directory or onto an existing file / chdir; paths absolute or relative, str or Path, "
         "with ./ and .. spellings, scalar or in a list of 1–3), and sequences of 2–10 stateless constructor calls "
@@ -63,7 +76,13 @@ MANIFEST = dict(
          "page, figure (FileNotFoundError) and document rules as decision-logic theorems; the generated code tables "
          "equal the documented value sets (kernel-decided, re-opened by any table edit). The model is tied to the "
          "code on every run by malformed / valid / free constructor streams judged by the Lean-defined verdict.",
-    note="Document rules (grouping columns missing from the data, df xor figure, list lengths, figure rules, inline "
+    note="String-coded options are drawn not only from hand lists of wrong words but as near-valid variants of every "
+         "documented value (a trailing / leading / inner / doubled line feed, carriage return, tab, blank, NUL, VT, FF, "
+         "FS, US, NEL, NBSP, LS, PS, wide and zero-width spaces, BOM; letter case; repetition; empty string; str "
+         "subclasses) for every option of every constructor: a validator that matches with `$`, strips, splits, "
+         "case-folds or truncates at NUL before looking the word up is seen. bytes values are ill-typed (outside the "
+         "statement) and pydantic's bytes→str coercion is not modelled: not drawn. "
+         "Document rules (grouping columns missing from the data, df xor figure, list lengths, figure rules, inline "
          "components, new_page without page_by) run over the range of data shapes: frames of 0 ('no observations' "
          "table), 1, few and many rows, frames without columns, an empty section at any place of a 1–3 section list, "
          "the missing name at any position of a string- or list-valued group_by / page_by / subline_by; the model's "
@@ -154,10 +173,19 @@ def color_names():
 
 # ------------------------------------------------------------------ value encoding (JSON <-> Python <-> Lean)
 
+class StrSub(str):
+    """a user-defined subclass of `str` (an `Enum`-less "tagged string", numpy.str_-like): for the validators it IS
+    the string it holds; transported as {"s": …, "sub": 1}, the Lean model reads the "s" part"""
+
+    __slots__ = ()
+
+
 def jv(v):
     """Python scalar → JSON val of the driver protocol"""
     if v is None:
         return None
+    if isinstance(v, StrSub):
+        return {"s": str.__str__(v), "sub": 1}
     if isinstance(v, bool):
         return {"b": v}
     if isinstance(v, int):
@@ -175,7 +203,7 @@ def pv(j):
     if j is None:
         return None
     if "s" in j:
-        return j["s"]
+        return StrSub(j["s"]) if j.get("sub") else j["s"]
     if "i" in j:
         return j["i"]
     if "b" in j:
@@ -686,6 +714,252 @@ def gen_shape_cases(seed, tier):
     return cases
 
 
+# ------------------------------------------------------------------ near-valid strings for every string-coded option
+
+# characters a file / spreadsheet / copy-paste / terminal leaves around a code word, and that `$`, `\s`, `strip()`,
+# `split()`, `splitlines()`, `casefold()`, C-string handling or a Unicode normalisation would swallow
+WS = [("LF", "\n"), ("CR", "\r"), ("CRLF", "\r\n"), ("TAB", "\t"), ("SP", " "), ("NUL", "\x00"), ("VT", "\x0b"),
+      ("FF", "\x0c"), ("FS", "\x1c"), ("US", "\x1f"), ("NEL", "\x85"), ("NBSP", "\xa0"), ("LS", "\u2028"),
+      ("PS", "\u2029"), ("EMSP", "\u2003"), ("IDSP", "\u3000"), ("ZWSP", "\u200b"), ("BOM", "\ufeff")]
+WS_KINDS = ["suffix", "prefix", "suffix2", "inner", "both", "only", "suffix_mixed"]
+PLAIN_KINDS = ["upper", "title", "swapcase", "repeat", "repeat3", "repeat_sep", "empty", "sub_valid", "sub_bad",
+               "sub_upper"]
+STR_CLASSES = ("border", "color", "format", "textJust", "rowJust", "vertAlign")
+FIG_STR = dict(fig_align=["left", "center", "right"], fig_pos=["before", "after"])
+PAGEBY_ROW = ["column", "first_row"]
+
+
+def near_slots():
+    """every string-coded option C19 speaks about: (constructor, option, value class)"""
+    slots = []
+    for comp in TABLE_COMPS + TEXT_COMPS:
+        for f in (TABLE_FIELDS if comp in TABLE_COMPS else TEXT_FIELDS):
+            if FIELD_CLASS[f] in STR_CLASSES:
+                slots.append(("comp", comp, f, FIELD_CLASS[f]))
+    slots.append(("pageby_row", "RTFBody", "pageby_row", "pagebyRow"))
+    for f in PAGE_STR:
+        slots.append(("page", "RTFPage", f, "border" if f.startswith("border") else
+                      "orientation" if f == "orientation" else "placement"))
+    for f in FIG_STR:
+        slots.append(("figure", "RTFFigure", f, "figAlign" if f == "fig_align" else "figPos"))
+    return slots
+
+
+def near_good(rng, slot):
+    """a documented legal value of the slot (the seed of the variant)"""
+    kind, _, f, cls = slot
+    if kind == "comp":
+        return good_value(rng, cls)
+    if kind == "pageby_row":
+        return rng.choice(PAGEBY_ROW)
+    if kind == "page":
+        return rng.choice(PAGE_STR[f][0])
+    return rng.choice(FIG_STR[f])
+
+
+def near_variant(rng, slot, vkind, w):
+    """a near-valid variant of a legal value of the slot: white space / control characters around or inside it,
+    another letter case, the value repeated, the empty string, a `str` subclass.  Whether the result is legal is
+    NOT decided here (e.g. "bb" is a legal format, "" a legal border): the Lean specification decides."""
+    g = near_good(rng, slot)
+    for _ in range(8):  # the variants need a non-empty seed (the empty one is "only" / "empty")
+        if g:
+            break
+        g = near_good(rng, slot)
+    if vkind == "suffix":
+        return g + w
+    if vkind == "prefix":
+        return w + g
+    if vkind == "suffix2":
+        return g + w + w
+    if vkind == "both":
+        return w + g + w
+    if vkind == "only":
+        return w if rng.random() < 0.6 else w + w
+    if vkind == "suffix_mixed":
+        return g + rng.choice(WS)[1] + w
+    if vkind == "inner":
+        if len(g) < 2:
+            g2 = near_good(rng, slot)
+            g = g + (g2 or g)  # two code words with the character between them ("b\ni", "l\nc")
+        k = rng.randint(1, len(g) - 1)
+        return g[:k] + w + g[k:]
+    if vkind == "upper":
+        return g.upper()
+    if vkind == "title":
+        return g.title() if rng.random() < 0.5 else g[:-1] + g[-1:].upper()
+    if vkind == "swapcase":
+        k = rng.randrange(len(g)) if g else 0
+        return g[:k] + g[k:k + 1].upper() + g[k + 1:]
+    if vkind == "repeat":
+        return g + g
+    if vkind == "repeat3":
+        return g + g + near_good(rng, slot)
+    if vkind == "repeat_sep":
+        return g + rng.choice([" ", ",", ";", "|", "+", "/", ", "]) + (near_good(rng, slot) or g)
+    if vkind == "empty":
+        return ""
+    if vkind == "sub_valid":
+        return StrSub(g)
+    if vkind == "sub_bad":
+        return StrSub(g + w)
+    if vkind == "sub_upper":
+        return StrSub(g.upper())
+    raise ValueError(vkind)
+
+
+def embed_value(rng, cls, shape, value):
+    """a raw value of the given shape holding `value` at a random position among legal values"""
+    t, dims = shape
+    n = 1 if t == "scalar" else dims if t in ("flat", "tuple") else sum(dims)
+    if n == 0:
+        t, dims, n = "flat", 1, 1
+    at = rng.choice([0, n - 1, rng.randrange(n)])
+    vals = [jv(value) if i == at else jv(good_value(rng, cls)) for i in range(n)]
+    pc = "first" if at == 0 else "last" if at == n - 1 else "inner"
+    if t == "scalar":
+        return {"t": t, "v": vals[0]}, pc
+    if t in ("flat", "tuple"):
+        return {"t": t, "v": vals}, pc
+    rows, k = [], 0
+    for wd in dims:
+        rows.append(vals[k:k + wd])
+        k += wd
+    return {"t": t, "v": rows}, ("row0" if at < dims[0] else "row+")
+
+
+_ROLE_OF = dict(RTFBody="body:0", RTFTitle="title", RTFFootnote="footnote", RTFSource="source",
+                RTFColumnHeader="header", RTFSubline="subline", RTFPageHeader="page_header",
+                RTFPageFooter="page_footer")
+
+
+def near_case(rng, slot, vkind, wname, w, in_doc=False):
+    kind, ctor, f, cls = slot
+    v = near_variant(rng, slot, vkind, w)
+    near = dict(slot=f"{ctor}.{f}", cls=cls, vkind=vkind, ws=wname if vkind in WS_KINDS or vkind == "sub_bad" else None)
+    if kind == "comp":
+        shape = make_shape(rng, ("scalar", "scalar", "flat", "tuple", "nested"))
+        raw, pc = embed_value(rng, cls, shape, v)
+        kw, shapes, pcs = [[f, raw]], [raw["t"]], [pc]
+        if rng.random() < 0.3:  # a second, legal attribute next to it
+            pool = TABLE_FIELDS if ctor in TABLE_COMPS else TEXT_FIELDS
+            f2 = rng.choice([x for x in pool if x != f])
+            sh2 = make_shape(rng, ("scalar", "flat", "tuple") if f2 == "col_rel_width" else
+                             ("scalar", "flat", "tuple", "nested"))
+            raw2, _ = fill(rng, FIELD_CLASS[f2], sh2, 0)
+            kw.append([f2, raw2])
+            shapes.append(raw2["t"])
+            pcs.append("none")
+        c = dict(kind="comp", comp=ctor, kw=kw, extra={}, mode="near", shapes=shapes, pos=pcs)
+        if in_doc:
+            # the same call as a component built inline for a document: "no document object and no RTF string"
+            c["role"] = _ROLE_OF[ctor]
+            if ctor == "RTFBody":
+                c["extra"] = dict(page_by=False, new_page=False)
+            c = dict(kind="doc", mode="near", rule="inline", comps=[c], figure=False, shaped=True,
+                     df={"single": ["a", "b"], "rows": rng.choice([0, 1, 2])}, body={"single": {}},
+                     header={"flat": 1})
+    elif kind == "pageby_row":
+        kw, shapes, pcs = [], [], []
+        if rng.random() < 0.4:
+            f2 = rng.choice(TABLE_FIELDS)
+            sh2 = make_shape(rng, ("scalar", "flat", "tuple") if f2 == "col_rel_width" else
+                             ("scalar", "flat", "tuple", "nested"))
+            raw2, _ = fill(rng, FIELD_CLASS[f2], sh2, 0)
+            kw, shapes, pcs = [[f2, raw2]], [raw2["t"]], ["none"]
+        extra = {"pageby_row": jv(v)}
+        if rng.random() < 0.4:
+            extra["page_by"], extra["new_page"] = True, rng.random() < 0.5
+        c = dict(kind="comp", comp="RTFBody", kw=kw, extra=extra, mode="near", shapes=shapes, pos=pcs)
+    elif kind == "page":
+        kw = [[f, {"t": "scalar", "v": jv(v)}]]
+        if rng.random() < 0.3:
+            f2 = rng.choice([x for x in PAGE_STR if x != f])
+            kw.append([f2, {"t": "scalar", "v": jv(rng.choice(PAGE_STR[f2][0]))}])
+        c = dict(kind="page", kw=kw, mode="near", narrow=False)
+    else:
+        c = dict(kind="figure", mode="near", figures=[True] * rng.choice([1, 2]), single_path=False)
+        c[f] = jv(v)
+        other = "fig_pos" if f == "fig_align" else "fig_align"
+        if rng.random() < 0.3:
+            c[other] = jv(rng.choice(FIG_STR[other]))
+    c["near"] = near
+    return c
+
+
+def near_doc_names(seed):
+    """grouping names that are a column name plus such a character (a name read from a file): not a column"""
+    cases, k = [], 0
+    for key in GROUP_KEYS:
+        for wname, w in WS:
+            for form in ("str", "list"):
+                rng = sub_rng(seed, "c19nearcol", k)
+                k += 1
+                cols = rng.sample(COLS, rng.randint(2, 4))
+                col = rng.choice(cols)
+                vk = rng.choice(["suffix", "prefix", "suffix2", "upper"])
+                miss = dict(suffix=col + w, prefix=w + col, suffix2=col + w + w, upper=col.upper())[vk]
+                names = [miss] if form == "str" else rng.choice([[miss], [c for c in cols if c != col][:1] + [miss],
+                                                                 [miss] + [c for c in cols if c != col][:1]])
+                bs = {key: names}
+                if form == "str":
+                    bs["_str"] = [key]
+                multi = rng.random() < 0.35
+                c = dict(kind="doc", mode="near", rule="cols", comps=[], figure=False, shaped=True,
+                         near=dict(slot=f"RTFBody.{key} (column names)", cls="column", vkind=vk,
+                                   ws=None if vk == "upper" else wname))
+                if multi:
+                    c.update(df={"multi": [cols, ["a"]], "rows": [rng.choice(ROW_CHOICES), 1]},
+                             body={"multi": [bs, {}]}, header={"flat": 1})
+                else:
+                    c.update(df={"single": cols, "rows": rng.choice(ROW_CHOICES)}, body={"single": bs},
+                             header={"flat": 1})
+                cases.append(c)
+    return cases
+
+
+def gen_near_cases(seed, tier):
+    """systematic: every string-coded option × every character as a trailing character, × one more placement of
+    every character (prefix / doubled / inner / both sides / alone / after another such character), × every other
+    variant kind; then random draws.  Shapes and positions random; about one component call in seven runs as a
+    component built inline for an `RTFDocument`."""
+    slots = near_slots()
+    cases, k = [], 0
+    reps = 1 if tier == "quick" else 6
+    for _ in range(reps):
+        for slot in slots:
+            for wname, w in WS:
+                for vk in ("suffix", None):
+                    rng = sub_rng(seed, "c19near", k)
+                    k += 1
+                    vkind = vk or rng.choice(WS_KINDS[1:])
+                    cases.append(near_case(rng, slot, vkind, wname, w,
+                                           in_doc=slot[0] == "comp" and rng.random() < 0.15))
+            for vkind in PLAIN_KINDS:
+                rng = sub_rng(seed, "c19near", k)
+                k += 1
+                wname, w = rng.choice(WS)
+                cases.append(near_case(rng, slot, vkind, wname, w, in_doc=slot[0] == "comp" and rng.random() < 0.1))
+    n = 600 if tier == "quick" else 20000
+    for j in range(n):
+        rng = sub_rng(seed, "c19nearrnd", j)
+        slot = rng.choice(slots)
+        wname, w = rng.choice(WS)
+        vkind = rng.choice(WS_KINDS + WS_KINDS + PLAIN_KINDS)
+        cases.append(near_case(rng, slot, vkind, wname, w, in_doc=slot[0] == "comp" and rng.random() < 0.1))
+    return cases + near_doc_names(seed)
+
+
+def count_near(res, c, d):
+    nr = c["near"]
+    res.count(f"near:{nr['cls']}:{nr['vkind']}:{d['spec']}")
+    if nr.get("ws"):
+        res.count(f"near_char:{nr['ws']}:{nr['vkind']}")
+    res.count(f"near_slot:{nr['slot']}")
+    if c["kind"] == "doc" and c.get("comps"):
+        res.count("near_in_document:component built inline for RTFDocument")
+
+
 # ------------------------------------------------------------------ running the real code
 
 _PNG = bytes.fromhex("89504e470d0a1a0a0000000d4948445200000001000000010806000000"
@@ -1148,7 +1422,7 @@ def gen_cases(seed, tier):
         else:
             c = gen_doc(rng, mode)
         cases.append(c)
-    return cases + gen_shape_cases(seed, tier)
+    return cases + gen_shape_cases(seed, tier) + gen_near_cases(seed, tier)
 
 
 def nontrivial_key(case, drv):
@@ -1200,6 +1474,8 @@ def run(res: common.Result, build) -> int:
         res.count(f"{c['kind']}:{c['mode']}")
         if c.get("narrow"):
             res.count(f"page:width-around-side-allowance:{d['spec']}")
+        if c.get("near"):
+            count_near(res, c, d)
         res.count(f"verdict:{d['spec']}")
         res.count(f"impl:{o['pi']}" + (f":{o['exc']}" if o["pi"] == "other" else ""))
         if c["kind"] == "comp":
